@@ -107,6 +107,13 @@ func DictNew(metatype *Type, args Tuple, kwargs StringDict) (Object, error) {
 	out := NewStringDict()
 	if len(args) == 1 {
 		arg := args[0]
+		// dict(mapping) copies the mapping
+		if d, ok := arg.(StringDict); ok {
+			arg = Tuple{}
+			for k, v := range d {
+				out[k] = v
+			}
+		}
 		seq, err := SequenceList(arg)
 		if err != nil {
 			return nil, err
